@@ -1380,6 +1380,8 @@ func main() {
 			coqStrList(callArgs("driver/netconf/rpc.go", "Driver.sendRPC", "serialize")))
 		fmt.Fprintf(&sw, "(* driver/netconf/capabilities.go Driver.ServerHasCapability *)\nDefinition server_has_capability_code : list dstmt :=\n  %s.\n",
 			decisionFunc("driver/netconf/capabilities.go", "Driver.ServerHasCapability"))
+		fmt.Fprintf(&sw, "(* channel/sendinteractive.go Channel.sendInteractive *)\nDefinition send_interactive_code : list dstmt :=\n  %s.\n",
+			decisionFunc("channel/sendinteractive.go", "Channel.sendInteractive"))
 		// the loops that apply an option list to an object (C19)
 		var ol []string
 		for _, lf := range [][2]string{{"driver/generic/driver.go", "NewDriver"}, {"driver/network/driver.go", "NewDriver"}, {"driver/netconf/driver.go", "NewDriver"},
